@@ -89,8 +89,8 @@ CLAIMED.update({
         "text": "TLC proves the tick-step, completeness and count-bound laws on every integer domain of a grid x every m (spec/LinTicks.tla, scale-free "
                 "in powers of ten), and evaluates the declarative predicates (step form, multiples, in-domain, complete, count bounds, labels distinct "
                 "and reading back) on tick lists and labels observed from LinearScale.ticks/tickFormat at decades 1e-6..1e9 and on random floats.",
-        "note": "Floats are projected to integers in units of a thousandth of the step; the step's (mantissa, exponent) is a harness-proposed "
-                "certificate validated by TLC.",
+        "note": "Floats are projected to integers in units of a thousandth of the step (relative to a multiple of the step for domains millions of steps from zero); the step's (mantissa, exponent) is a harness-proposed "
+                "certificate validated by TLC. 'Inside the domain up to floating-point effects' is also judged at float resolution (excess of the outermost ticks against four roundings per tick). Observed tick lists are second answers, after the caller edited the first.",
         "technique": "TLA+ tick model checked exhaustively by TLC; trace validation of ticks()/tickFormat() records",
         "design_ref": "DESIGN.md section 8 (C13)",
     },
@@ -102,7 +102,7 @@ CLAIMED.update({
                 "(spec/LinTicks.tla) and evaluates the same predicates on nice() results observed from LinearScale at decades 1e-6..1e9 and on random "
                 "floats. Time: the predicates (never inward, orientation, less than two tick steps of the original ticks, aligned to the calendar "
                 "class of the tick spacing via spec/Calendar.tla) are evaluated by TLC on TimeScale.nice() results for curated and random domains.",
-        "note": "Known finding F-14L (float noise double-widening in LinearScale.nice) is exempted only for its exact pattern, decided by TLC.",
+        "note": "Known finding F-14L (float noise double-widening in LinearScale.nice) is exempted only for its exact pattern, decided by TLC. Inward movement is also judged at float resolution (domains with ends a hair outside a multiple of the step).",
         "technique": "TLA+ tick/nice model checked exhaustively by TLC; trace validation of nice() records (linear and time)",
         "design_ref": "DESIGN.md section 8 (C14)",
     },
@@ -161,7 +161,7 @@ CLAIMED.update({
                 "enumeration order) and validates int2name(0..N) as successor chains anchored at the spec's Name(i0); colour conversions are "
                 "specified on character codes and TLC validates hex2rgb/hex2rgbstr/hex2html on all 22^3 three-digit codes, every channel value "
                 "in both cases and seeded six-digit codes.",
-        "note": "The full 16.7 M six-digit sweep is not run (channel-wise coverage).",
+        "note": "The full 16.7 M six-digit sweep is not run (channel-wise coverage). Second observation point: the macro names used by the labels, links and dots of TikZ exports (also with data entered twice) must be the k-th name for the k-th datum.",
         "technique": "TLA+ functional spec checked by TLC; trace validation of utils call/return records",
         "design_ref": "DESIGN.md section 8 (C20)",
     },
@@ -197,10 +197,10 @@ CLAIMED.update({
     },
     "C10": {
         "text": "Heap model of a process with module-level defaults and several Timeline instances (spec/Timelines.tla) model-checked over all "
-                "construct/export histories up to a bound (Isolation, Idempotent; sharing the default scale gives a 3-step counterexample); every "
+                "construct/export histories up to a bound AND, under a view without the history variable, over histories of every length (Isolation, Idempotent; negative variants: shared default scale, shared direction, axis fitted again at export, one object for instances without options); every "
                 "maximal TLC history is replayed in one Python process and each export's SHA-256 is compared by TLC with the digest of the same "
                 "configuration exported alone in a fresh subprocess; seeded random longer histories likewise.",
-        "note": "Equality up to SHA-256 collision.",
+        "note": "Equality up to SHA-256 collision. Configurations include nice-sensitive data, timelines starting at the same instant, int/float twins, construction without an options argument.",
         "technique": "TLA+ heap/history model + TLC; TLC-generated histories replayed into the code; trace validation against fresh-process references",
         "design_ref": "DESIGN.md section 8 (C10)",
     },
